@@ -258,6 +258,9 @@ func refTree(c *core.Ctx) *core.N {
 		o.InnerNames = 0.4
 	}
 	t, _ := g.Tree(o)
+	if g.Chance(0.15) {
+		lookAlikeNames(g, t)
+	}
 	if g.Chance(0.2) {
 		// a rooted reference with a tip child of the root
 		if len(t.Kids) == 2 {
@@ -268,7 +271,13 @@ func refTree(c *core.Ctx) *core.N {
 			sub.E = core.NewE()
 			sub.E.Len = g.Length(&o)
 			sub.E.Sup = g.Support(&o)
-			leaf := &core.N{Name: fmt.Sprintf("t%d", len(t.TipNames())), E: core.NewE()}
+			nm := fmt.Sprintf("t%d", len(t.TipNames()))
+			for _, x := range t.TipNames() {
+				if x == nm {
+					nm = "new_" + nm
+				}
+			}
+			leaf := &core.N{Name: nm, E: core.NewE()}
 			leaf.E.Len = g.Length(&o)
 			if g.Chance(0.5) {
 				t = &core.N{Kids: []*core.N{leaf, sub}}
@@ -304,6 +313,51 @@ func refTree(c *core.Ctx) *core.N {
 		}
 	}
 	return t
+}
+
+// lookAlikes: names that an index built with anything but the exact string order may confuse - equal up to
+// zero padding of a digit run, to case, to a numeric reading, to separators; all of them plain Newick labels.
+var lookAlikes = [][]string{
+	{"t1", "t01", "t001", "t10", "t2"},
+	{"1", "01", "001", "1.0", "10", "2"},
+	{"s7", "s07", "s007", "S7", "s70"},
+	{"a", "A", "aa", "aA", "Aa"},
+	{"x1", "x_1", "x.1", "X1", "x01"},
+	{"Tip2", "Tip10", "Tip02", "tip2", "TIP2"},
+}
+
+// lookAlikesLib: only where no Newick text is in the way (blanks at the ends, equal under TrimSpace)
+var lookAlikesLib = []string{" a", "a ", " t1", "t1 ", "t 1"}
+
+// lookAlikeNames renames some (or all) tips of the tree with look-alike names, pairwise distinct as strings.
+func lookAlikeNames(g *core.G, t *core.N) {
+	var pool []string
+	for _, i := range g.R.Perm(len(lookAlikes))[:2+g.Intn(2)] {
+		pool = append(pool, lookAlikes[i]...)
+	}
+	if funnyOK {
+		pool = append(pool, lookAlikesLib...)
+	}
+	ls := leavesOf(t)
+	used := map[string]bool{}
+	for _, l := range ls {
+		used[l.Name] = true
+	}
+	perm := g.R.Perm(len(pool))
+	k := 0
+	for _, i := range g.R.Perm(len(ls)) {
+		if k >= len(perm) || (k >= 2 && g.Chance(0.2)) {
+			break
+		}
+		nm := pool[perm[k]]
+		k++
+		if used[nm] {
+			continue
+		}
+		delete(used, ls[i].Name)
+		ls[i].Name = nm
+		used[nm] = true
+	}
 }
 
 func relabel(g *core.G, t *core.N) {
@@ -1584,7 +1638,7 @@ func Run(c *core.Ctx) {
 		Replay(c, core.ReadRequests(c.Arg))
 		return
 	}
-	n := c.Scale(400, 2900)
+	n := c.Scale(400, 2500)
 	for i := 0; i < n && timeouts < maxTimeouts; i++ {
 		smallFirst = i < n/8
 		manyTaxa = !smallFirst && (i%(n/3) == n/6 || (!c.Quick() && c.G.Chance(0.004))) // three inputs per run, more in the thorough tier
@@ -1599,6 +1653,9 @@ func Run(c *core.Ctx) {
 	}
 	for i := 0; i < c.Scale(60, 300) && timeouts < maxTimeouts; i++ {
 		cancelCase(c)
+	}
+	for i := 0; i < c.Scale(40, 150) && timeouts < maxTimeouts; i++ {
+		cancelAsyncCase(c)
 	}
 	if c.Gotree != "" {
 		m := c.Scale(25, 200)
